@@ -10,10 +10,10 @@ LEVEL = 'exploration'
 SHARDS = 16
 RULE = ('lines generated from the grammar SSH-<d>.<d+>-<token>[ <comments>] (token over printable ASCII without space, comments with 1-3 space runs, '
         'optional injected bytes < 32, 127, >= 128 in token/comments, product strings of the known families at random versions); in-process batches call the real '
-        'Banner.parse / Software.parse, end-to-end cases deliver 0..6 header lines then the banner from a scripted peer (CRLF or LF) and read the text and JSON report; '
+        'Banner.parse / Software.parse, end-to-end cases deliver 0..6 header lines then the banner from a scripted peer (CRLF or LF; in one write, cut in two inside the banner or a header line, or in 1-7 byte segments) and read the text and JSON report; '
         'a case is non-trivial when at least one generated line was parsed and every part (protocol, software, comments, flag, round trip) was compared; '
         'distinct = distinct batch / peer specifications')
-REQUIRED = {'lines_parsed': 5000, 'injected_lines': 500, 'product_lines': 300, 'e2e_runs': 20, 'e2e_with_header': 5}
+REQUIRED = {'lines_parsed': 5000, 'injected_lines': 500, 'product_lines': 300, 'e2e_runs': 20, 'e2e_with_header': 5, 'e2e_cut_inside_a_line': 10, 'e2e_header_then_cut_banner': 4}
 ASSUMPTIONS = ['comments are compared after collapsing whitespace runs to one space (the normalisation the tool documents)',
                'each character outside 32..126 is expected to be shown as one replacement character; a multi-byte UTF-8 sequence or an undecodable byte counts as one character',
                'end-to-end delivery is one TCP segment smaller than the tool\'s 2048-byte read (segmentation is C09\'s subject)']
@@ -81,7 +81,7 @@ def cases(tier, seed):
         cs.append({'kind': 'parse', 'seed': rng.randrange(1 << 30), 'n': per, 'mode': ['plain', 'inject', 'product', 'product-inject'][i % 4]})
     ne = 64 if tier == 'quick' else 1200
     for i in range(ne):
-        cs.append({'kind': 'e2e', 'seed': rng.randrange(1 << 30), 'json': i % 3 == 2, 'headers': i % 7, 'eol': '\n' if i % 5 == 4 else '\r\n', 'inject': i % 4 == 3, 'product': i % 2 == 0})
+        cs.append({'kind': 'e2e', 'seed': rng.randrange(1 << 30), 'json': i % 3 == 2, 'headers': i % 7, 'eol': '\n' if i % 5 == 4 else '\r\n', 'inject': i % 4 == 3, 'product': i % 2 == 0, 'cut': ['none', 'in-banner', 'in-header', 'bytewise'][(i // 2) % 4]})
     return cs
 
 
@@ -139,6 +139,15 @@ def run_e2e(c):
     probes = c['seed'] % 2 == 0   # half of the peers answer host-key and group-exchange probes, so the tool reconnects several times and sees the header lines again
     script = {'banner': line, 'pre': pre, 'eol': c['eol'], 'kex': audit.sym_kex(['curve25519-sha256'] + (['diffie-hellman-group-exchange-sha256'] if probes else []), ['ssh-ed25519', 'ssh-rsa'], ['aes128-ctr'], ['hmac-sha2-256']),
               'hostkeys': {'ssh-ed25519': {'type': 'ed25519'}, 'ssh-rsa': {'type': 'rsa', 'bits': 3072}} if probes else {}, 'gex': {'sizes': [3072], 'style': 'strict'} if probes else None}
+    # how the identification block reaches the tool: in one write, or cut into two writes (with a pause) inside the banner line / inside a header line, or in tiny segments - a line only counts once it is complete
+    head_len = sum(len(wire.nb(x)) + len(c['eol']) for x in pre)
+    cut = c.get('cut', 'none')
+    if cut == 'in-banner':
+        script['faults'] = [{'conn': '*', 'at': 'banner', 'op': 'split', 'offset': head_len + rng.choice([4, 8, 9, 12, max(9, len(wire.nb(line)) - 1), rng.randint(1, max(1, len(wire.nb(line))))]), 'pause': 0.25}]
+    elif cut == 'in-header' and head_len > 2:
+        script['faults'] = [{'conn': '*', 'at': 'banner', 'op': 'split', 'offset': rng.randint(1, head_len - 1), 'pause': 0.25}]
+    elif cut == 'bytewise':
+        script['faults'] = [{'conn': 0, 'at': 'banner', 'op': 'segment', 'n': rng.choice([1, 3, 7]), 'delay': 0.004}]
     total = sum(len(wire.nb(x)) + 2 for x in pre) + len(wire.nb(line)) + 2
     if total > 1900:
         return [], {'e2e_skipped_long': 1}
@@ -178,7 +187,7 @@ def run_e2e(c):
             swl = rep.gen_value('software')
             if swl is None or (exp['product'] + ' ' + exp['version']) not in swl:  # a vendor name may precede the product
                 viol.append(_v('C16/e2e-software:' + exp['product'], 'software line does not carry product and version', line=line, got=swl))
-    return viol, {'e2e_runs': 1, 'e2e_with_header': 1 if pre else 0}
+    return viol, {'e2e_runs': 1, 'e2e_with_header': 1 if pre else 0, 'e2e_cut_inside_a_line': 1 if p.count('fault') else 0, 'e2e_header_then_cut_banner': 1 if pre and cut == 'in-banner' and p.count('fault') else 0}
 
 
 def run_case(c):
